@@ -1,7 +1,15 @@
 // Correspondence harness for C19: the real path functions of File (part A) and the real
 // File / Directory operations on a scratch tree inside a private root (part B).
 #include "vh.hpp"
+#include <sys/types.h>
+#include <sys/stat.h>
+#include <fcntl.h>
+#include <dirent.h>
+#include <errno.h>
+#include <stdint.h>
+#define private public            // read-only use: the descriptor of a File, for the cursor dump
 #include <nstd/File.hpp>
+#undef private
 #include <nstd/Directory.hpp>
 #include <nstd/String.hpp>
 
@@ -40,8 +48,9 @@ static bool path_op(long c, vh::Tok& t)
   } else if(!strcmp(t.v[0], "rel")) {
     String f = arg(t.v[1]), to = arg(t.v[2]);
     String r = File::getRelativePath(f, to);
-    String joined = f;
-    joined.append('/');
+    String joined = f;                  // `from` with the answer appended ("" is the current directory)
+    if(!f.isEmpty())
+      joined.append('/');
     joined.append(r);
     printf("%ld ", c);
     put(r); printf(" ");
@@ -51,12 +60,249 @@ static bool path_op(long c, vh::Tok& t)
   return true;
 }
 
-static void begin(long, vh::Tok&) {}
+// ---- part B: the real File / Directory code on a scratch tree ------------------------------------
+//
+// Layout (everything below the directory the harness is started in, i.e. build/C19/run):
+//   fs-<pid>/g1/g2/g3/in    current directory of a case; the tree the operations are meant for
+//   fs-<pid>/g1/g2/g3/out   the outside sentinel, reached through "../out" and symbolic links
+// g1..g3 are guard levels: an operation that climbs out of in/out is seen in the snapshot
+// (entries marked '!') and still lands inside fs-<pid>.  Set-up and snapshots use plain system
+// calls, never the library under test.  The scratch tree is removed at the end of every case.
+
+static char base_dir[4096];     // absolute path of fs-<pid>
+static char home_dir[4096];     // where the harness was started
+static bool fs_active = false;
+static File* hnd[8];
+
+static void rm_tree(const char* path)           // never follows symbolic links
+{
+  struct stat sb;
+  if(lstat(path, &sb) != 0) return;
+  if(S_ISDIR(sb.st_mode)) {
+    DIR* d = opendir(path);
+    if(d) {
+      struct dirent* e;
+      while((e = readdir(d))) {
+        if(!strcmp(e->d_name, ".") || !strcmp(e->d_name, "..")) continue;
+        char sub[8192];
+        snprintf(sub, sizeof(sub), "%s/%s", path, e->d_name);
+        rm_tree(sub);
+      }
+      closedir(d);
+    }
+    rmdir(path);
+  } else
+    unlink(path);
+}
+
+static char** snap; static size_t snap_n, snap_cap;
+static void snap_add(char* s)
+{
+  if(snap_n == snap_cap) { snap_cap = snap_cap ? 2 * snap_cap : 64; snap = (char**)realloc(snap, snap_cap * sizeof(char*)); }
+  snap[snap_n++] = s;
+}
+static int snap_cmp(const void* a, const void* b) { return strcmp(*(char* const*)a, *(char* const*)b); }
+
+static void hexcat(char* dst, const unsigned char* b, size_t n)
+{
+  if(n == 0) { strcat(dst, "-"); return; }
+  size_t l = strlen(dst);
+  for(size_t i = 0; i < n; ++i) sprintf(dst + l + 2 * i, "%02x", b[i]);
+}
+
+// abs: path in the real file system; rel: path below fs-<pid> ("" for the root)
+static void snap_walk(const char* abs, const char* rel)
+{
+  DIR* d = opendir(abs);
+  if(!d) return;
+  struct dirent* e;
+  while((e = readdir(d))) {
+    if(!strcmp(e->d_name, ".") || !strcmp(e->d_name, "..")) continue;
+    char a2[8192], r2[8192];
+    snprintf(a2, sizeof(a2), "%s/%s", abs, e->d_name);
+    if(*rel) snprintf(r2, sizeof(r2), "%s/%s", rel, e->d_name); else snprintf(r2, sizeof(r2), "%s", e->d_name);
+    struct stat sb;
+    if(lstat(a2, &sb) != 0) continue;
+    const char* shown = r2;
+    bool guard = !strcmp(r2, "g1") || !strcmp(r2, "g1/g2") || !strcmp(r2, "g1/g2/g3");
+    bool inside = !strncmp(r2, "g1/g2/g3/", 9);
+    if(inside) shown = r2 + 9;
+    char* line = 0;
+    if(S_ISDIR(sb.st_mode)) {
+      if(!guard) { line = (char*)malloc(strlen(r2) + 8); sprintf(line, "%s%s:d", inside ? "" : "!", shown); }
+    } else if(S_ISLNK(sb.st_mode)) {
+      char t[4096]; ssize_t n = readlink(a2, t, sizeof(t));
+      if(n < 0) n = 0;
+      line = (char*)malloc(strlen(r2) + 2 * (size_t)n + 16); sprintf(line, "%s%s:l:", inside ? "" : "!", shown);
+      hexcat(line, (const unsigned char*)t, (size_t)n);
+    } else {
+      size_t cap = (size_t)sb.st_size + 1; unsigned char* buf = (unsigned char*)malloc(cap);
+      size_t n = 0;
+      int fd = open(a2, O_RDONLY | O_NOFOLLOW);
+      if(fd >= 0) { ssize_t k; while(n < cap && (k = read(fd, buf + n, cap - n)) > 0) n += (size_t)k; close(fd); }
+      line = (char*)malloc(strlen(r2) + 2 * n + 16); sprintf(line, "%s%s:f:", inside ? "" : "!", shown);
+      hexcat(line, buf, n);
+      free(buf);
+    }
+    if(line) snap_add(line);
+    if(S_ISDIR(sb.st_mode)) snap_walk(a2, r2);
+  }
+  closedir(d);
+}
+
+static void print_snapshot()
+{
+  snap_n = 0;
+  snap_walk(base_dir, "");
+  qsort(snap, snap_n, sizeof(char*), snap_cmp);
+  if(snap_n == 0) printf("-");
+  for(size_t i = 0; i < snap_n; ++i) { printf("%s%s", i ? " " : "", snap[i]); free(snap[i]); }
+}
+
+static bool handle_is_dir(int h)
+{
+  struct stat sb;
+  return fstat((int)(intptr_t)hnd[h]->fp, &sb) == 0 && S_ISDIR(sb.st_mode);
+}
+
+static void print_handles()
+{
+  bool any = false;
+  for(int h = 0; h < 8; ++h)
+    if(hnd[h] && hnd[h]->isOpen()) {
+      long long pos = (long long)lseek((int)(intptr_t)hnd[h]->fp, 0, SEEK_CUR);
+      if(handle_is_dir(h)) printf("%sh%d@dir", any ? " " : "", h);   // the cursor of a directory is the file system's business
+      else printf("%sh%d@%lld", any ? " " : "", h, pos);
+      any = true;
+    }
+  if(!any) printf("-");
+}
+
+static void fin(long c)
+{
+  printf(" | "); print_snapshot(); printf(" | "); print_handles(); printf("\n");
+  (void)c;
+}
+
+static void fs_end()
+{
+  if(!fs_active) return;
+  for(int h = 0; h < 8; ++h) { delete hnd[h]; hnd[h] = 0; }
+  if(chdir(home_dir) != 0) _exit(3);
+  rm_tree(base_dir);
+  fs_active = false;
+}
+
+static void fs_begin()
+{
+  fs_end();
+  if(!getcwd(home_dir, sizeof(home_dir))) _exit(3);
+  snprintf(base_dir, sizeof(base_dir), "%s/fs-%ld", home_dir, (long)getpid());
+  rm_tree(base_dir);
+  char p[8192];
+  const char* levels[] = {"", "/g1", "/g1/g2", "/g1/g2/g3", "/g1/g2/g3/in", "/g1/g2/g3/out"};
+  for(int i = 0; i < 6; ++i) { snprintf(p, sizeof(p), "%s%s", base_dir, levels[i]); if(mkdir(p, 0755) != 0) { perror(p); _exit(3); } }
+  snprintf(p, sizeof(p), "%s/g1/g2/g3/in", base_dir);
+  if(chdir(p) != 0) _exit(3);
+  fs_active = true;
+}
+
+static bool fs_op(long c, vh::Tok& t)
+{
+  const char* o = t.v[0];
+  int h = (t.n > 1 && (!strcmp(o, "open") || !strcmp(o, "close") || !strcmp(o, "write") || !strcmp(o, "read") ||
+                       !strcmp(o, "readall") || !strcmp(o, "seek") || !strcmp(o, "size"))) ? atoi(t.v[1]) & 7 : -1;
+  bool handle_op = h >= 0 && strcmp(o, "open") && strcmp(o, "close");
+  if(!fs_active) return false;
+  if(handle_op && !(hnd[h] && hnd[h]->isOpen())) { printf("%ld ?closed", c); fin(c); return true; }
+  if(handle_op && handle_is_dir(h)) { printf("%ld ?dir", c); fin(c); return true; }
+  if(!strcmp(o, "mkd")) {
+    printf("%ld %d", c, mkdir(arg(t.v[1]), 0755) == 0 ? 1 : 0);
+  } else if(!strcmp(o, "mkf")) {
+    String p = arg(t.v[1]); size_t n; unsigned char* d = vh::unhex(t.v[2], n);
+    int fd = open(p, O_CREAT | O_EXCL | O_WRONLY | O_NOFOLLOW, 0644);
+    bool ok = fd >= 0 && write(fd, d, n) == (ssize_t)n;
+    if(fd >= 0) close(fd);
+    free(d);
+    printf("%ld %d", c, ok ? 1 : 0);
+  } else if(!strcmp(o, "mkl")) {
+    String tg = arg(t.v[1]), p = arg(t.v[2]);
+    printf("%ld %d", c, symlink(tg, p) == 0 ? 1 : 0);
+  } else if(!strcmp(o, "open")) {
+    if(!hnd[h]) hnd[h] = new File;
+    printf("%ld %d", c, hnd[h]->open(arg(t.v[2]), (uint)atoi(t.v[3])) ? 1 : 0);
+  } else if(!strcmp(o, "close")) {
+    if(hnd[h]) hnd[h]->close();
+    printf("%ld -", c);
+  } else if(!strcmp(o, "write")) {
+    printf("%ld %d", c, hnd[h]->write(arg(t.v[2])) ? 1 : 0);
+  } else if(!strcmp(o, "read")) {
+    size_t n = (size_t)atol(t.v[2]);
+    unsigned char* b = (unsigned char*)malloc(n ? n : 1);
+    ssize r = hnd[h]->read(b, n);
+    printf("%ld ", c);
+    if(r < 0) printf("-1"); else vh::puthex(b, (size_t)r);
+    free(b);
+  } else if(!strcmp(o, "readall")) {
+    String d; bool ok = hnd[h]->readAll(d);
+    printf("%ld %d ", c, ok ? 1 : 0); put(d);
+  } else if(!strcmp(o, "seek")) {
+    int wh = atoi(t.v[3]);
+    printf("%ld %lld", c, (long long)hnd[h]->seek(atoll(t.v[2]), wh == 0 ? File::setPosition : wh == 1 ? File::currentPosition : File::endPosition));
+  } else if(!strcmp(o, "size")) {
+    printf("%ld %lld", c, (long long)hnd[h]->size());
+  } else if(!strcmp(o, "funlink")) {
+    printf("%ld %d", c, File::unlink(arg(t.v[1])) ? 1 : 0);
+  } else if(!strcmp(o, "symlink")) {
+    printf("%ld %d", c, File::createSymbolicLink(arg(t.v[1]), arg(t.v[2])) ? 1 : 0);
+  } else if(!strcmp(o, "rename")) {
+    printf("%ld %d", c, File::rename(arg(t.v[1]), arg(t.v[2]), atoi(t.v[3]) != 0) ? 1 : 0);
+  } else if(!strcmp(o, "copy")) {
+    printf("%ld %d", c, File::copy(arg(t.v[1]), arg(t.v[2]), atoi(t.v[3]) != 0) ? 1 : 0);
+  } else if(!strcmp(o, "exists")) {
+    printf("%ld %d", c, Directory::exists(arg(t.v[1])) ? 1 : 0);
+  } else if(!strcmp(o, "create") || !strcmp(o, "dunlink")) {
+    String p = arg(t.v[1]);
+    bool r = !strcmp(o, "create") ? Directory::create(p) : Directory::unlink(p, atoi(t.v[2]) != 0);
+    struct stat sb;                                   // the harness's own look, not the library's
+    bool there = stat(p, &sb) == 0 && S_ISDIR(sb.st_mode);
+    printf("%ld %d %d", c, r ? 1 : 0, there ? 1 : 0);
+  } else
+    return false;
+  fin(c);
+  return true;
+}
+
+static void begin(long, vh::Tok& t)
+{
+  if(t.n > 2 && !strcmp(t.v[2], "fs")) fs_begin(); else fs_end();
+}
+
+static void end(long) { fs_end(); }
 
 static void op(long c, long, vh::Tok& t)
 {
   if(path_op(c, t)) return;
+  if(fs_op(c, t)) return;
   printf("%ld ?unknown-op\n", c);
 }
 
-int main(int argc, char** argv) { return vh::run(argc, argv, begin, op, 0); }
+// scratch trees of harness processes that died (sanitizer report, watchdog) are removed here
+static void sweep_stale()
+{
+  DIR* d = opendir(".");
+  if(!d) return;
+  struct dirent* e;
+  while((e = readdir(d)))
+    if(!strncmp(e->d_name, "fs-", 3)) {
+      long pid = atol(e->d_name + 3);
+      if(pid > 0 && kill((pid_t)pid, 0) != 0 && errno == ESRCH) { char p[512]; snprintf(p, sizeof(p), "./%s", e->d_name); rm_tree(p); rewinddir(d); }
+    }
+  closedir(d);
+}
+
+int main(int argc, char** argv)
+{
+  sweep_stale();
+  return vh::run(argc, argv, begin, op, end);
+}
